@@ -195,7 +195,11 @@ def main(argv):
         "violations": len({f["sig"] for f in new_failures}) if new_failures else (1 if rc == 1 else 0),
     }
     if not replay:
-        common.write_json(os.path.join(common.EVIDENCE_DIR, f"{prop}.json"), evidence)
+        # evidence/ holds runs against /repo itself only; a run against another tree (VERIF_REPO: seeded changes, scratch
+        # worktrees) leaves its evidence under out/
+        ev_dir = common.EVIDENCE_DIR if os.path.realpath(common.REPO) == "/repo" else os.path.join(common.OUT_DIR, "evidence_other_tree")
+        os.makedirs(ev_dir, exist_ok=True)
+        common.write_json(os.path.join(ev_dir, f"{prop}.json"), evidence)
 
     for l in lines:
         print(l)
